@@ -25,7 +25,7 @@ def run_case(name, lines, harness=None, leaks=False):
         f.write("\n".join(lines) + "\n")
     env = dict(os.environ, ASAN_OPTIONS="detect_leaks=%d:abort_on_error=0" % (1 if leaks else 0), UBSAN_OPTIONS="print_stacktrace=0")
     try:
-        a = subprocess.run([harness or HARNESS, path], stdout=subprocess.PIPE, stderr=subprocess.PIPE, text=True, timeout=60, env=env)
+        a = subprocess.run([harness or HARNESS, path], stdout=subprocess.PIPE, stderr=subprocess.PIPE, text=True, timeout=10, env=env)
         out, err, rc = a.stdout, a.stderr, a.returncode
     except subprocess.TimeoutExpired as e:
         out = e.stdout.decode() if isinstance(e.stdout, bytes) else (e.stdout or "")
